@@ -245,5 +245,13 @@ class Config:
             snaps.append(SingleSnapshot(
                 timestep=1000 * t, nparticle=len(pos), particle_type=self.types_f[t][: len(pos)].copy(),
                 positions=pos.copy(), boxlength=L.copy(), boxbounds=bounds,
-                realbounds=None, hmatrix=self.hs[t].copy()))
+                realbounds=None, hmatrix=self._cell(t)))
         return Snapshots(nsnapshots=self.T, snapshots=snaps)
+
+    def _cell(self, t):
+        """The cell matrix as the caller holds it: float64 as the readers deliver it, or - for a
+        hand-made snapshot with integer box lengths, np.diag([8, 4, 16]) - an integer array."""
+        h = self.hs[t].copy()
+        if self.recipe.get("int_cell") and np.array_equal(h, np.round(h)):
+            return h.astype(np.int64)
+        return h
